@@ -88,6 +88,32 @@ pub fn run(args: &[String]) -> i32 {
                         g.true_probability = rate;
                         key((0..len).map(|_| g.sample(r)).collect::<Vec<bool>>())
                     })));
+                    // ... and when it was changed after the generator had already been used
+                    targets.push(("bool_generator_used_then_retuned", Box::new(move |r| {
+                        let mut g = BoolGenerator::new(if rate > 0.5 { 0.0 } else { 1.0 });
+                        let _ = g.sample(r);
+                        g.true_probability = rate;
+                        key((0..len).map(|_| g.sample(r)).collect::<Vec<bool>>())
+                    })));
+                    targets.push(("bool_collection_used_then_retuned", Box::new(move |r| {
+                        let mut cg = BoolGenerator::new(if rate > 0.5 { 0.0 } else { 1.0 }).into_collection_generator(len);
+                        let _: Vec<bool> = cg.sample(r);
+                        cg.element_generator.true_probability = rate;
+                        let v: Vec<bool> = cg.sample(r);
+                        key(v)
+                    })));
+                    // a mutation at ANOTHER rate (on another genome) ran just before on the same thread: every
+                    // call applies its own configured rate
+                    targets.push(("with_rate_vec_after_another_rate", Box::new(move |r| {
+                        let Ok(_) = WithRate::new(0.000_5).mutate(vec![true; 37], r);
+                        let Ok(c) = WithRate::new(rate as f32).mutate(vec![true; len], r);
+                        key(c.into_iter().map(|b| !b))
+                    })));
+                    targets.push(("with_rate_bits_after_another_rate", Box::new(move |r| {
+                        let Ok(_) = WithRate::new(0.999).mutate(Bitstring { bits: vec![false; 5] }, r);
+                        let Ok(c) = WithRate::new(rate as f32).mutate(Bitstring { bits: vec![true; len] }, r);
+                        key(c.bits.into_iter().map(|b| !b))
+                    })));
                     targets.push(("bool_generator_retuned_collection", Box::new(move |r| {
                         let mut g = BoolGenerator::new(if rate > 0.5 { 0.0 } else { 1.0 });
                         g.true_probability = rate;
